@@ -90,7 +90,7 @@ func genC12(r *rand.Rand) *c12Case {
 		cs.Other = genC12Items(r, false)
 	}
 	if r.Intn(4) == 0 {
-		cs.Extra = choose(r, []string{"strip=/x", "proto=http", "redirect=200", "redirect=301x", "redirect=", "redirect=999", "tlsskipverify=true", "weight=abc", "host=dst", "unknownoption=1", "auth=nosuch"})
+		cs.Extra = choose(r, []string{"strip=/x", "proto=http", "redirect=200", "redirect=301x", "redirect=", "redirect=999", "tlsskipverify=true", "weight=abc", "host=dst", "unknownoption=1", "auth=nosuch", "auth=", "auth"})
 		cs.ExtraFirst = r.Intn(2) == 0
 	}
 	cs.Remote = choose(r, c12Addrs)
@@ -268,7 +268,7 @@ func c12Decision(c *ctx) {
 		if cs.Kind == "allow" {
 			tcpRef = !tcpRef
 		}
-		if strings.HasPrefix(cs.Extra, "auth=") {
+		if strings.HasPrefix(cs.Extra, "auth=") || cs.Extra == "auth" {
 			tcpRef = true // the route asks for credentials, which a TCP connection cannot present
 		}
 		var gotT bool
@@ -321,9 +321,16 @@ func c12Auth(c *ctx) {
 	n := c.pick(20000, 400000)
 	for i := 0; i < n; i++ {
 		c.R.Eval(1)
-		scheme := choose(r, []string{"", "basic1", "basic1", "nosuch", "BASIC1", "basic"})
+		scheme := choose(r, []string{"", "basic1", "basic1", "nosuch", "BASIC1", "basic", "<auth= without a value>", "<bare auth>", "<auth= basic1>"})
 		opts := ""
-		if scheme != "" {
+		switch {
+		case scheme == "<auth= without a value>": // the option is there and names no scheme that can exist: nobody gets in
+			opts = " opts \"auth=\""
+		case scheme == "<bare auth>":
+			opts = " opts \"strip=/x auth\""
+		case scheme == "<auth= basic1>":
+			opts = " opts \"auth= basic1\""
+		case scheme != "":
 			opts = fmt.Sprintf(" opts \"auth=%s\"", scheme)
 		}
 		t, err := newTable("route add svc a.test/ http://10.0.0.9:80/" + opts)
